@@ -1598,6 +1598,16 @@ FUNCS = [
                                   "  match Copia.ScanSupport.parentOf cur with\n"
                                   "  | none =>\n    @FIN@ := true\n    break\n"
                                   "  | some parent =>")]),
+    # ---- dir_sync.rs: the directories are made before anything is delivered
+    dict(group="scan", file="src/bin/copia/dir_sync.rs", name="create_local_dirs", sig=None,
+         lean="def createLocalDirsGen {W P R : Type} (create_dir_all : W → P → Option W) (join : P → R → P) (w0 : W) (local_root : P) (dirs : List R) : Option W := do\n"
+              "  -- world: `create_dir_all` on a path either fails (none: the `?` returns, nothing further is created) or gives the next file-system state\n"
+              "  let mut w := w0",
+         retval="w", paths={},
+         calls={"Ok": lambda a: "OK" if a == ["()"] else (_ for _ in ()).throw(TranslateError("Ok(..) with a value"))},
+         effects={"std::fs::create_dir_all": (True, lambda a: f"w ← create_dir_all w {a[0]}")},
+         methods={"join": lambda r, a: f"(join {r} {a[0]})"},
+         block_heads=[dict(rust="for dir in dirs {", indent=2, before="for dir in dirs do")]),
     # ---- transfer.rs: the walker itself
     dict(group="scan", file="src/bin/copia/transfer.rs", name="discover_local_files", sig=None, option=True,
          lean="def discoverFilesGen {P R : Type} (read_dir : P → Option (List (Option (Copia.ScanSupport.Ent P)))) (is_file : P → Bool)\n"
